@@ -36,7 +36,7 @@ TIERS = {
     # fam_full: exhaustive family sizes; fam_sample: (size, how many sampled); rnd: (count, statement budget)
     'quick': dict(fam_full=(1, 2), fam_sample=((3, 1100),), clo=(3, 600), rnd=((700, 8), (400, 12)), max_trip=2,
                   max_steps=60, max_dec=8),
-    'thorough': dict(fam_full=(1, 2, 3), fam_sample=((4, 9000),), clo=(3, 0), rnd=((10000, 8), (6000, 12), (2000, 16)),
+    'thorough': dict(fam_full=(1, 2, 3), fam_sample=((4, 12000),), clo=(3, 0), rnd=((16000, 8), (10000, 12), (4000, 16)),
                      max_trip=2, max_steps=80, max_dec=10),
 }
 
@@ -326,12 +326,18 @@ def replay_all(progs, claims, terms, procs):
 # one batch: export -> TLC -> replay ; returns findings
 # ------------------------------------------------------------------------------------------------
 def signature(b, p):
-    """Root-cause class of one monitor record, from what the specification knows about it."""
+    """Root-cause class of one monitor record, from what the specification knows about it (most specific first)."""
     okind = p['exprs'][b['o'] - 1]['kind']
     if b['unk']:
         return 'c19:stale-claim-after-operand-became-unknown'
     if b['wrel'] == 'store':
         return 'c19:binding-claim-misses-type:%s:%s' % (okind, b['wk'])
+    if b['clause'] == 'closure' and b['cshadow']:
+        # this call contributed the caller's own variable of that name, or nothing at all
+        return 'c19:closure-types-from-call-in-local-function-use-its-own-names'
+    if b['clause'] == 'types' and b['clo']:
+        # the final CLOSURE_TYPES know the type: the body was annotated before they were complete
+        return 'c19:callee-annotated-before-closure-types-complete'
     cause = None
     if b['wnl'] and b['wrel'] == 'other':
         cause = 'nonlocal-rebinding-invisible-to-caller'
@@ -342,11 +348,7 @@ def signature(b, p):
     elif b['wk'] in ('assign', 'unpack', 'param') and not b['wc']:
         cause = 'assign-of-unknown-keeps-old-type'
     if b['clause'] == 'closure':
-        if cause is None and b['cshadow']:
-            return 'c19:closure-types-from-call-in-local-function-use-its-own-names'
         return 'c19:' + (cause or 'closure-types-miss-captured-type')
-    if cause is None and b['clo']:
-        return 'c19:callee-annotated-before-closure-types-complete'
     if cause and okind == 'name':
         return 'c19:' + cause
     return 'c19:types-miss:%s:%s:%s' % (okind, b['wk'], b['wrel'])
@@ -590,21 +592,27 @@ def run(rep):
 
 
 def replay(path):
+    """Re-run the witness of a VIOLATION file against the current VERIF_REPO; exit 1 if it reproduces."""
     w = json.load(open(path))
     print(json.dumps(w, indent=1))
     from .. import report
     rep = report.Report('C19', 'quick')
     tables = load_tables(rep)
     wit = w.get('witness', {})
-    if 'tree' in wit:
-        tree = eval(wit['tree'], {})
-        out = Batch(tables, TIERS['quick'], name='TypeSemReplay', workers=2).run([tree], rep=rep)
-        sigs = sorted({s for s, _, _, _ in out['findings']})
-        print(out['srcs'][0])
-        print('signatures reproduced on this tree:', sigs)
-        return 1 if w.get('signature') in sigs else 0
-    run(rep)
-    return rep.finish()
+    if 'tree' not in wit:          # an unshrunk witness: repeat the whole check
+        run(rep)
+        return rep.finish()
+    tree = eval(wit['tree'], {})
+    out = Batch(tables, TIERS['quick'], name='TypeSemReplay', workers=2, full=True).run([tree], rep=rep)
+    sigs = sorted({s for s, _, _, _ in out['findings']})
+    print(out['srcs'][0])
+    for t in out['terms']:
+        for b in t['bad']:
+            print('decisions %s: %s clause, occurrence %d (%s), run-time type %s' % (
+                t['dec'], b['clause'], b['o'], b['name'] or L.r_expr(out['progs'][t['pid']], b['o'], False), b['t']))
+    hit = w.get('signature') in sigs
+    print('signatures on this tree: %s -> %s' % (sigs, 'REPRODUCED' if hit else 'not reproduced'))
+    return 1 if hit else 0
 
 
 def selftest():
